@@ -19,7 +19,11 @@ def inert(w):
 
 
 def obs_lattice(case):
-    txt = qa.CTP._preprocess_string(case["text"])
+    import re
+    # exactly what _ctparse hands to the lexer: normalised text with the #labels cut out
+    txt = re.sub('#[a-zA-Z0-9_-]+', '', qa.CTP._preprocess_string(case["text"])).strip()
+    if case.get("raw"):
+        txt = case["text"]
     ms = qa.CTP._match_regex(txt, qa.REGEX)
     seqs = qa.CTP._regex_stack(txt, ms)
     uniq = []
@@ -99,6 +103,13 @@ def run(ctx):
     exprs += [(qa.CTP._preprocess_string(t), ts, 0) for t, ts in (corp[ctx.seed % 3::3] if ctx.quick else corp)]
     # lattice binding on bare and embedded texts
     lat = [{"text": t} for t, ts, full in exprs] + [{"text": rnd.choice(words) + " " + t + " " + rnd.choice(words)} for t, ts, full in exprs[::3]]
+    # a label in the middle of an expression leaves two blanks; _regex_stack itself must cope with any run of blanks
+    for t, ts, full in exprs[::2]:
+        ws = t.split(" ")
+        if len(ws) >= 2:
+            k = rnd.randrange(1, len(ws))
+            lat.append({"text": " ".join(ws[:k] + ["#tag"] + ws[k:])})
+            lat.append({"text": " ".join(ws[:k]) + "   " + " ".join(ws[k:]), "raw": True})
     lat = [c for c in lat if engine.text_size(c["text"])[1] <= 200]
     core.run_stage(ctx, "lattice", lat, obs_lattice, "LatticeTrace", sig_keys=(), nontrivial=lambda c: c["text"])
     cases = []
